@@ -9,9 +9,11 @@ Layer 2 [P, z3] (lemmas/wires.py): those edge updates keep every wire a single p
 order (splice / unsplice), appending keeps the graph acyclic (explicit rank witness), removing keeps it acyclic.
 By induction over the edit history the representation invariant WF (DESIGN §5 C12 (1)-(6)) is preserved by append, insert-at-edge
 and remove; only register-adding edits change the register counts.
+Rewrites [P] (contracts/dag_rewrites.py): the REAL remove_identity / unwrap_nodes / group_one_qubit_gates on fragments - whole function
+for small numbers of listed nodes + an induction step for every loop; the resulting edge sets are again single paths per wire
+(unsplice / splice compositions), indexes updated, register counts unchanged.
 [T-cycle] + [B-only]: insert_at of a two-qubit operation on a pair of edges reported compatible creates no cycle
-(find_incompatible_edges uses nx.ancestors / nx.descendants); replace_op, unwrap_nodes, group_one_qubit_gates, remove_identity,
-sequence()/topological order, depth: bounded stand-in (bounded/C12.py).
+(find_incompatible_edges uses nx.ancestors / nx.descendants); sequence()/topological order, depth: bounded stand-in (bounded/C12.py).
 """
 from __future__ import annotations
 
@@ -19,7 +21,7 @@ import z3
 
 from pyvc.driver import run_tasks
 from vf.core import Obl
-from contracts import dag as D
+from contracts import dag as D, dag_rewrites as RW
 from lemmas import wires
 
 
@@ -41,16 +43,31 @@ def _canaries():
             {"name": "canary.wire.assumptions-consistent(False not provable)", "function": fn, "refuted": c2.status == "refuted", "replayed": False}]
 
 
+def _rw_canaries(can):
+    by = {}
+    for o in can.obligations:
+        lab = o.name.split("|")[0].split(":")[0]
+        e = by.setdefault(lab, {"name": lab, "function": o.function, "refuted": False, "replayed": False})
+        if o.status == "refuted":
+            e["refuted"] = True
+    return list(by.values())
+
+
 def deductive(tier="quick", seed=0):
-    d = run_tasks(D.tasks(tier))
-    d.obligations.extend(wires.obligations())
-    d.canaries = _canaries()
-    d.inlined = sorted(D.INLINE)
+    d = run_tasks(D.tasks(tier) + RW.tasks())
+    d.obligations.extend(wires.obligations() + RW.wire_lemmas())
+    can = run_tasks(RW.canary_tasks())
+    d.errors.extend(can.errors)
+    d.canaries = _canaries() + _rw_canaries(can)
+    d.inlined = sorted(D.INLINE | RW.INLINE)
     d.trusted_base += [
         "[A] networkx MultiDiGraph primitives on an explicit fragment (pyvc/symgraph.py): add_node, add_edge, remove_edges_from, "
         "remove_node, in_edges/out_edges(keys=True), nodes[n], edges[e]; the fragment is licensed by the WF precondition",
         "[S-fmt] f-string formatting of (one-letter register type, non-negative decimal register) is injective",
         "[T-cycle] inserting a node on edges (a,b),(c,d) of a DAG creates a cycle iff b ->* c or d ->* a",
-        "[B-only] replace_op, unwrap_nodes, group_one_qubit_gates, remove_identity, find_incompatible_edges, sequence, depth",
+        "[B-only] find_incompatible_edges, sequence, depth (replace_op and the three rewrites are under contract: contracts/dag.py, "
+        "contracts/dag_rewrites.py; register / node depth: contracts/depth.py, C18)",
+        "[A] `for x in <list>` = CPython's index-based list iterator (contracts/dag_rewrites.live_list_loop); [A-list] abstract list "
+        "segments in the induction steps of the rewrites",
     ]
     return d
